@@ -206,6 +206,7 @@ Proof.
     destruct s as [| | |[[[a l] t]|]]; try discriminate; simpl; auto.
     destruct (find_idx (key_is k) l); simpl; fold abs_row; auto. now rewrite swap_remove_map.
   - rewrite abs_prim_copy by auto. now rewrite abs_prim_rows.
+  - pose proof (abs_prim_copy (prim_rows zs) (CS None) eq_refl) as E. simpl in E. rewrite E. now rewrite abs_prim_rows.
 Qed.
 
 (* ---- CopyTo is exact when no field is "copied only when set" ------------------------------------------- *)
